@@ -54,7 +54,49 @@ def _iteration_sites(fi: FuncInfo, name: str) -> List[ast.AST]:
                     out.append(n)
         if isinstance(n, ast.Starred) and isinstance(n.value, ast.Name) and n.value.id == name:
             out.append(n)
+        # handed on to a package function/constructor that declares the matching parameter Iterable as well: it will be consumed there
+        if isinstance(n, ast.Call) and n not in out and _hands_on_iterable(fi, n, name):
+            out.append(n)
     return out
+
+
+def _is_iterable_ann(ann: Optional[ast.expr]) -> bool:
+    if ann is None:
+        return False
+    t = src(ann)
+    t = t[len("Optional["):] if t.startswith("Optional[") else t
+    return t.startswith(("Iterable[", "Iterator[", "typing.Iterable[", "typing.Iterator[", "Generator["))
+
+
+def _hands_on_iterable(fi: FuncInfo, call: ast.Call, name: str) -> bool:
+    from .. import core
+
+    pos = [i for i, a in enumerate(call.args) if isinstance(a, ast.Name) and a.id == name]
+    kws = [k.arg for k in call.keywords if k.arg and isinstance(k.value, ast.Name) and k.value.id == name]
+    if not pos and not kws:
+        return False
+    repo = core.CURRENT_REPO
+    if repo is None:
+        return False
+    try:
+        targets = resolve_call(repo, fi, call)
+    except Exception:
+        return False
+    for t in targets:
+        fn = getattr(t, "node", None)
+        if not isinstance(fn, (ast.FunctionDef, ast.AsyncFunctionDef)):
+            continue
+        params = list(fn.args.posonlyargs) + list(fn.args.args)
+        if params and params[0].arg in ("self", "cls") and getattr(t, "cls", None) is not None:
+            params = params[1:]
+        for i in pos:
+            if i < len(params) and _is_iterable_ann(params[i].annotation):
+                return True
+        for k in kws:
+            for a in params + list(fn.args.kwonlyargs):
+                if a.arg == k and _is_iterable_ann(a.annotation):
+                    return True
+    return False
 
 
 @rule("GEN.iter", ["C17", "C20", "C09"], "a parameter typed Iterable/Iterator is iterated at most once (it may be a one-shot iterator)", 5)
